@@ -21,7 +21,7 @@ from ..compile import World
 from ..ctx import RunTooBig
 from ..history import History, canon, canon_outcome, digest
 from ..rng import Streams, chance, pick, weighted
-from ..sim import apply_op, build_sim, locations, observing
+from ..sim import apply_op, form_of, build_sim, locations, observing
 from ..world import gen_entities, gen_situation
 from . import Result
 from .c18 import make_env
@@ -111,6 +111,14 @@ LONG = {
     "day": ["2018-02", "2020-02", "2018-01", "2018-04", "month:2018-01:2", "day:2018-02-26:5", "day:2018-01-01:10", "month:2018-01-15", "2019",
             "year:2019-03", "year:2019-07", "year:2020-03", "2020"],
     "year": ["year:2018:2", "year:2017:3", "year:2018:3", "year:2018-07:2", "year:2017-03:3"],
+}
+# period texts that are their own canonical form (the situation builder files inputs under
+# the text of the period): the long periods an input given *in the situation document* uses
+DOC_PERIODS = {
+    "month": ["2018", "2019", "year:2018-07", "year:2017:2", "month:2018-01:3", "month:2018-11:4", "year:2019-03", "year:2018-03:2",
+              "year:2017-07:2", "2018-02", "2018-07"],
+    "day": ["2018-02", "2020-02", "2018-01", "month:2018-01:2", "day:2018-02-26:5", "2019", "year:2019-03", "2018-02-28"],
+    "year": ["year:2018:2", "year:2017:3", "2018"],
 }
 SHORT = {
     "month": ["2018-01", "2018-02", "2018-07", "2018-12", "2019-01", "2019-02", "2017-12", "2018-06"],
@@ -214,10 +222,28 @@ def generate(seed: int, tier: str) -> dict:
             # F6: the k-th spill write of this long-period input fails (if it gets that
             # far); the same input is then given again, the cause being gone
             ops[-1]["io_fault"] = {"at": orr.randint(1, min(4, n_sub)), "kind": pick(orr, ["enospc", "enospc_torn"])}
+    # Some inputs arrive in the situation document itself (SimulationBuilder) rather than
+    # through set_input: one per person-level variable at most, with a value for every
+    # person, so that neither the builder's ordering of inputs nor what it does for
+    # instances that gave no value (C12, not claimed) comes into play.
+    doc_inputs = []
+    if chance(orr, 0.35):
+        for v in variables:
+            if v["entity"] == "person" and not v.get("end") and chance(orr, 0.6):
+                per = _era(pick(orr, DOC_PERIODS[v["unit"]]), era)
+                if per is None:
+                    continue
+                n_sub = len(sub_periods(per, v["unit"]))
+                if v["type"] == "int":
+                    vals = [orr.choice([0, 1, 2, 5, -3]) * _lcm_upto(n_sub) for _ in range(orr.randint(1, 3))]
+                else:
+                    vals = [orr.choice([0.0, 1.0, 12.0, 100.0, 1200.0, 365.0, 0.5, -24.0, 3.3]) for _ in range(orr.randint(1, 3))]
+                doc_inputs.append({"actor": "D", "do": ["set_input", v["name"], per, vals], "prebuilt": True})
     return {
         "format": 1,
         "property": PROPERTY,
         "profile": "inputs",
+        "doc_inputs": doc_inputs,
         "seed": seed,
         "world": world,
         "situation": situation,
@@ -307,18 +333,35 @@ def run(scn) -> Result:
     env = make_env(scn)
     try:
         with env:
-            sim = build_sim(world, scn["situation"], scn["knobs"], ())
+            from ..compile import tile
+
+            situation = scn["situation"]
+            doc_ops = list(scn.get("doc_inputs") or [])
+            if doc_ops:
+                # the inputs the document carries: person k gets the k-th value
+                import copy
+
+                situation = copy.deepcopy(situation)
+                persons = list(situation["persons"])
+                for op in doc_ops:
+                    _k, var, per, vals = op["do"]
+                    arr = tile(vals, len(persons), world.var_specs[var], world)
+                    for k, pid in enumerate(persons):
+                        situation["persons"][pid].setdefault(var, {})[per] = arr[k].item()
+                res.count("probe:inputs_given_in_the_situation_document", len(doc_ops))
+            sim = build_sim(world, situation, scn["knobs"], ())
+            if doc_ops and [str(i) for i in sim.persons.ids] != list(situation["persons"]):
+                raise AssertionError("harness: persons of the built simulation are not in document order")
             models = {
                 v["name"]: Model(v, sim.populations[v["entity"]].count) for v in scn["world"]["variables"]
             }
-            from ..compile import tile
 
             # handles on the variables' holders, obtained before anything is set (the
             # documented way to feed a variable directly): what the simulation holds and
             # what a handle shows are the same thing
             handles = {name: sim.get_holder(name) for name in models}
 
-            queue = list(scn["ops"])
+            queue = doc_ops + list(scn["ops"])
             step = -1
             while queue:
                 op = queue.pop(0)
@@ -333,7 +376,7 @@ def run(scn) -> Result:
                     array = tile(do[3], m.count, spec, world)
                     verdict, exp, known, unknown = m.set_input(period_text, array)
                     subs = sub_periods(period_text, spec["unit"])
-                    before = _read(sim, env, var, subs)
+                    before = _read(sim, env, var, subs) if not op.get("prebuilt") else dict.fromkeys(subs)
                     if spec.get("end") and parse_period(period_text)[1].isoformat() > spec["end"]:
                         # an input for a period that starts after the variable's end date
                         # is ignored (Simulation.set_input); one that starts on or before
@@ -366,8 +409,10 @@ def run(scn) -> Result:
                             raise
                         except Exception as e:  # noqa: BLE001
                             out = ("exc", e)
+                    elif op.get("prebuilt"):
+                        out = ("ok", None)  # given in the situation document: the builder has set it
                     else:
-                        out = apply_op(sim, world, do)
+                        out = apply_op(sim, world, do, form=form_of(do, step))
                     fired = []
                     if fault:
                         fired = [list(map(str, f)) for f in env.fs.fired]
